@@ -1945,6 +1945,12 @@ func (vc *VC) ret(x *ssa.Return) {
 			vc.oblige("panics", fmt.Sprintf("returns-only-if-not:%s@ret%d", labelOr(c.Label, i), k), not(ectx.formula(c.E)), x.Pos())
 		}
 	}
+	// the returned values are part of a counterexample (used by the replay)
+	savedWitness := vc.witness
+	for i, r := range rs {
+		vc.witness = append(append([]namedTerm{}, vc.witness...), namedTerm{fmt.Sprintf("result%d", i), r, vc.reg.sortOf(x.Results[i].Type())})
+	}
+	defer func() { vc.witness = savedWitness }()
 	for i, c := range vc.decl.Clauses {
 		if c.Kind == "ensures" {
 			if strings.HasPrefix(c.Label, "assumed:") {
